@@ -72,6 +72,20 @@ pub fn ops() -> u64 {
     PUMP.with(|p| p.borrow().ops)
 }
 
+thread_local! {
+    static MOVED: std::cell::Cell<u64> = const { std::cell::Cell::new(0) };
+}
+
+/// Bytes accepted by or delivered from any SimStream on this thread so far: the measure of
+/// progress (operation counts also move when somebody merely re-polls).
+pub fn moved() -> u64 {
+    MOVED.with(|m| m.get())
+}
+
+fn count_moved(n: usize) {
+    MOVED.with(|m| m.set(m.get() + n as u64));
+}
+
 pub fn pumped_ms() -> u64 {
     PUMP.with(|p| p.borrow().pumped_ms)
 }
@@ -433,6 +447,7 @@ impl AsyncRead for SimStream {
             dst.put_slice(&[b]);
         }
         p.read += k as u64;
+        count_moved(k);
         p.log.push(0x1000 + k as u64);
         p.wake_writer();
         Poll::Ready(Ok(()))
@@ -486,6 +501,7 @@ impl SimStream {
                     FaultKind::Stall => {
                         // swallow silently from now on
                         p.written += total as u64;
+                        count_moved(total);
                         Poll::Ready(Ok(total))
                     }
                     _ => Poll::Ready(Err(io::ErrorKind::BrokenPipe.into())),
@@ -515,6 +531,7 @@ impl SimStream {
             left -= n;
         }
         p.written += k as u64;
+        count_moved(k);
         p.log.push(0x2000 + k as u64);
         // a fault scheduled exactly at the new offset fires as soon as it is reached (EOF / reset
         // become visible to the reader without needing another write)
